@@ -152,3 +152,29 @@ Example old_worker_loses_item_contended :
   let s := run (fun _ => false) (init_c 1 1 2 1 false true) f9_schedule in
   pc s = PReturned /\ nrecv s = 0.
 Proof. vm_compute. auto. Qed.
+
+(* ------------------------------------------------------------------ *)
+(* `toasty transform` (cli.transform_impl), tied by TRANSLATION: Generated/CliTransformSrc.v is the
+   decision tree of the function produced from toasty/cli.py in /repo's working tree on every
+   build.  Under every valuation of the settings it behaves like the hand-written model
+   (Model/CliScript.v), in which every call -- either sub-command, in place or with --outdir --
+   works on the pyramid at pyramid_dir down to --start with --parallelism workers and writes into
+   the pyramid at --outdir exactly when that is given: the worker count and the item set the
+   user asked for are the ones the stage gets.  Proofs in Proofs/CliTransformP.v. *)
+From Coq Require Import String.
+From Toasty Require Import Model.SrcPrelude Model.CliScript Generated.CliTransformSrc Proofs.CliTransformP.
+
+Theorem src_transform_command_is_model :
+  forall (is_none : sval unit -> bool) (eq_lit : sval unit -> string -> bool),
+  run_tree is_none eq_lit src_cli_transform_impl = transform_impl_model is_none eq_lit.
+Proof. exact src_transform_impl_eq. Qed.
+Print Assumptions src_transform_command_is_model.
+
+Theorem transform_command_plumbing :
+  forall (is_none : sval unit -> bool) (eq_lit : sval unit -> string -> bool) (e : sevent unit),
+  In e (snd (transform_impl_model is_none eq_lit)) ->
+  call_pos e = [pyramid_at (setting "pyramid_dir") []; setting "start"] /\
+  call_kw "parallel" e = Some (setting "parallelism") /\
+  call_kw "pio_out" e = Some (if is_none (setting "outdir") then SNoneV else pyramid_at (setting "outdir") []).
+Proof. exact transform_plumbing. Qed.
+Print Assumptions transform_command_plumbing.
